@@ -38,7 +38,7 @@ def iso_request():
     return NMEA2000Message(PGN=59904, id="isoRequest", fields=[NMEA2000Field(id="pgn", value=60928, raw_value=60928)], source=0, destination=255, priority=6)
 
 
-def run_case(kind, shape, k, mode, post=("connect", "send", "data", "eof")):
+def run_case(kind, shape, k, mode, post=("connect", "send", "data", "eof"), during=None):
     plan = {"never_connected": [("accept",)], "connect_in_flight": [("accept", 2.0)], "retry_wait": [("refuse",)] * 6 + [("accept",)]}.get(shape, [("accept",)])
     s = aio.Session(kind, connect_plan=plan)
     s.status_mode = mode
@@ -57,6 +57,7 @@ def run_case(kind, shape, k, mode, post=("connect", "send", "data", "eof")):
         if shape in ("connected_idle", "mid_packet", "in_callback", "during_send", "after_fault", "reset_and_send"):
             while not s.gw.links:
                 await asyncio.sleep(0.01)
+            await conn                      # connect() has returned: status callback done, receive loop started
             await asyncio.sleep(0.05)
         link = s.gw.link
         if shape == "mid_packet":
@@ -79,10 +80,27 @@ def run_case(kind, shape, k, mode, post=("connect", "send", "data", "eof")):
         S0 = loop.steps
         closed = asyncio.Event()
 
+        def inject_during():
+            l = s.gw.link
+            if l is None:
+                return
+            what = during[0]
+            if what == "data":
+                l.feed(valid_packet(kind, sid=55))
+            elif what == "sorry":
+                l.feed(b"Sorry,Limited")
+            elif what == "eof":
+                l.eof()
+            elif what == "reset":
+                l.reset()
+
         async def do_close():
             s.close_entered_step = loop.steps
             s.close_entered_time = loop.time()
             s.outstanding = outstanding_now()
+            if during is not None:
+                # something happens on the link while close() is still running (e.g. while it awaits a slow status callback)
+                s.at_step(loop.steps + during[1], inject_during)
             await c.close()
             s.close_returned = loop.time()
             s.close_returned_step = loop.steps
@@ -127,8 +145,8 @@ def run_case(kind, shape, k, mode, post=("connect", "send", "data", "eof")):
     return outcome, s
 
 
-def evaluate(kind, shape, k, mode, outcome, s):
-    case = {"client": kind, "shape": shape, "k": k, "mode": mode}
+def evaluate(kind, shape, k, mode, outcome, s, during=None):
+    case = {"client": kind, "shape": shape, "k": k, "mode": mode, "during": list(during) if during else None}
     tag = f"C14|{kind}|{shape}"
     if outcome != "ok":
         return [(f"{tag}|{outcome}", f"session ended with {outcome}: {s.errors[:1]}", case)]
@@ -173,14 +191,14 @@ def fingerprint(s):
             [x for _, _, x in s.states], [l.closed_by_client for l in s.gw.links])
 
 
-def check(ctx, kind, shape, k, mode):
-    outcome, s = run_case(kind, shape, k, mode)
-    res = evaluate(kind, shape, k, mode, outcome, s)
+def check(ctx, kind, shape, k, mode, during=None):
+    outcome, s = run_case(kind, shape, k, mode, during=during)
+    res = evaluate(kind, shape, k, mode, outcome, s, during)
     if mode == "raise" and outcome == "ok":
-        o2, s2 = run_case(kind, shape, k, "plain")
+        o2, s2 = run_case(kind, shape, k, "plain", during=during)
         if o2 == "ok" and fingerprint(s) != fingerprint(s2):
             res.append((f"C14|{kind}|{shape}|raising-callback-visible", f"run with a raising status callback differs from the plain run: {fingerprint(s)} vs {fingerprint(s2)}",
-                        {"client": kind, "shape": shape, "k": k, "mode": mode}))
+                        {"client": kind, "shape": shape, "k": k, "mode": mode, "during": list(during) if during else None}))
     return res, s
 
 
@@ -199,6 +217,22 @@ def _enumerate(ctx: Ctx, item):
                 ctx.sample({"client": kind, "shape": shape, "k": k, "mode": mode, "status": [x for _, x in s.status_trace],
                             "attempts": len(s.gw.attempts), "loop_steps": s.loop.steps})
     ctx.klass(f"shape:{shape}", len(ks) * len(modes))
+
+
+def _during(ctx: Ctx, item):
+    """Link events while close() is running (enumerated: event kind x delay in loop steps x callback mode x shape)."""
+    kind, = item
+    events = ["data", "eof", "reset"] + (["sorry"] if kind == "ebyte" else [])
+    for shape in ("connected_idle", "mid_packet", "in_callback"):
+        for ev in events:
+            for j in (0, 1, 2, 4):
+                for mode in ("slow", "plain"):
+                    ctx.count()
+                    ctx.nontrivial_extra += 1
+                    res, s = check(ctx, kind, shape, 3, mode, during=(ev, j))
+                    for b, w, c in res:
+                        ctx.report(b + "|during-close", w, c)
+    ctx.klass("events_during_close")
 
 
 def _work(ctx: Ctx, item):
@@ -230,10 +264,12 @@ def run(ctx: Ctx):
                 for part in (ks[0::2], ks[1::2]):
                     jobs.append((kind, shape, part, modes_for(i)))
     pmap(ctx, _enumerate, jobs)
+    pmap(ctx, _during, [(k,) for k in aio.CLIENT_KINDS])
     pmap(ctx, _work, [(k, 10 if ctx.quick else 150) for k in aio.CLIENT_KINDS for _ in range(2)])
     ctx.notes["close_steps_enumerated"] = f"{len(ks)} step offsets x {len(SHAPES)} shapes x 4 clients" + ("" if ctx.quick else " x 3 callback modes (every step 0..129)")
 
 
 def replay(ctx: Ctx, case):
-    res, _ = check(ctx, case["client"], case["shape"], case["k"], case["mode"])
-    return res
+    during = tuple(case["during"]) if case.get("during") else None
+    res, _ = check(ctx, case["client"], case["shape"], case["k"], case["mode"], during)
+    return [(b + "|during-close", w, c) for b, w, c in res] if during else res
